@@ -80,7 +80,7 @@ def main():
             print(sid, "PATCH-DOES-NOT-APPLY", flush=True)
             continue
         try:
-            res = evaluate(W, "-seedscan")
+            res = evaluate(W, "-seedscan" + os.path.basename(W).replace("jawk-mut", ""))
         except ex.ExtractError as e:
             print(sid, "EXTRACT-FAILED", str(e)[-200:], flush=True)
             continue
